@@ -50,7 +50,23 @@ def decPT (j : Json) : Except String PT :=
   | .str "?s" => pure (.var .s)
   | .str "?p" => pure (.var .p)
   | .str "?v" => pure (.var .v)
+  | .arr #[.str "str", .str s] => pure (.str s.toList)
   | other => do pure (.const (← decTerm other))
+
+def decVar (j : Json) : Except String Var :=
+  match j with
+  | .str "?d" => pure .d
+  | .str "?s" => pure .s
+  | .str "?p" => pure .p
+  | .str "?v" => pure .v
+  | _ => throw "bad variable"
+
+def decFlt (j : Json) : Except String Flt :=
+  match j with
+  | .arr #[.str "strEq", x, .str s] => do pure (.strEq (← decVar x) s.toList)
+  | .arr #[.str "member", x, .str s] => do pure (.member (← decVar x) s.toList)
+  | .arr #[.str "typedBy", x, pred, .str s] => do pure (.typedBy (← decVar x) (← decTerm pred) s.toList)
+  | _ => throw "bad filter"
 
 def decPat (j : Json) : Except String Pat :=
   match j with
@@ -92,7 +108,10 @@ def handle (j : Json) : Except String Json := do
   | "bgp" =>
     let g ← (← getArr j "triples").toList.mapM decTriple
     let pats ← (← getArr j "pats").toList.mapM decPat
-    pure (jarr ((solutions g pats).map encBinding))
+    let fs ← match getArr j "filters" with
+      | .ok a => a.toList.mapM decFlt
+      | .error _ => pure []
+    pure (jarr ((filtered g pats fs).map encBinding))
   | _ => throw s!"unknown op {op}"
 
 end DrvC20
